@@ -389,6 +389,10 @@ func (c *Conn) deliver(sg segment, n int) {
 	h.rq.Wake()
 }
 
+// Stall holds back everything this end writes from now on (it stays in
+// flight) until Unstall.
+func (c *Conn) Stall() { c.out.stalled = true }
+
 // Unstall releases a stalled direction (the one this end writes).
 func (c *Conn) Unstall() {
 	h := c.out
